@@ -37,6 +37,7 @@ type c20Case struct {
 
 type c20Kept struct {
 	obj   interface{}
+	get   func() interface{} // when set: what to hash is looked up through the delivered object each time
 	hash  [32]byte
 	where string
 }
@@ -60,7 +61,18 @@ func (s *c20Store) keep(v interface{}, where string) {
 		return
 	}
 	s.mu.Lock()
-	s.kept = append(s.kept, c20Kept{v, h, where})
+	s.kept = append(s.kept, c20Kept{v, nil, h, where})
+	s.mu.Unlock()
+}
+
+// keepVia retains an object that cannot be encoded itself; get returns the encodable part reached through it.
+func (s *c20Store) keepVia(get func() interface{}, where string) {
+	h, ok := c20Hash(get())
+	if !ok {
+		return
+	}
+	s.mu.Lock()
+	s.kept = append(s.kept, c20Kept{nil, get, h, where})
 	s.mu.Unlock()
 }
 
@@ -69,7 +81,11 @@ func (s *c20Store) verify() (changed []string, n int) {
 	s.mu.Lock()
 	defer s.mu.Unlock()
 	for _, k := range s.kept {
-		if h, ok := c20Hash(k.obj); !ok || h != k.hash {
+		obj := k.obj
+		if k.get != nil {
+			obj = k.get()
+		}
+		if h, ok := c20Hash(obj); !ok || h != k.hash {
 			changed = append(changed, k.where)
 		}
 	}
@@ -280,6 +296,40 @@ func c20RealPair(cs c20Case, r *rand.Rand, st *c20Store) error {
 		return fmt.Errorf("connect: %v", err)
 	}
 	defer cl.Close(context.Background())
+	// the notifications of a subscription are messages delivered to the application as well: each
+	// *PublishNotificationData taken from the channel is kept and looked at again after later notifications
+	notifs := make(chan *opcua.PublishNotificationData, 1024)
+	if sub, err := cl.Subscribe(ctx, &opcua.SubscriptionParameters{Interval: 10 * time.Millisecond}, notifs); err == nil {
+		for k, v := range rs.Vars {
+			sub.Monitor(ctx, ua.TimestampsToReturnBoth, opcua.NewMonitoredItemCreateRequestWithDefaults(v.ID(), ua.AttributeIDValue, uint32(k+1)))
+		}
+		ndone := make(chan struct{})
+		nctx, ncancel := context.WithCancel(context.Background())
+		go func() {
+			defer close(ndone)
+			k := 0
+			for {
+				select {
+				case p := <-notifs:
+					if p == nil || p.Error != nil {
+						continue
+					}
+					if _, ok := p.Value.(*ua.DataChangeNotification); ok {
+						p := p
+						st.keepVia(func() interface{} { return p.Value }, fmt.Sprintf("notification %d taken from the subscription's channel", k))
+						k++
+					}
+				case <-nctx.Done():
+					return
+				}
+			}
+		}()
+		defer func() {
+			time.Sleep(60 * time.Millisecond) // a last publish round
+			ncancel()
+			<-ndone
+		}()
+	}
 	for i := 0; i < cs.Msgs; i++ {
 		n := rs.Vars[r.Intn(len(rs.Vars))]
 		payload := make([]byte, []int{1, 500, 9000, 100000}[r.Intn(4)])
@@ -385,7 +435,7 @@ func init() {
 	fw.Register("C20", fw.Spec{
 		Plan: func(tier string) fw.Plan {
 			p := fw.Plan{Batches: 8, TimeoutS: 900, MinNontrivial: 16, Level: "exploration",
-				Rule:        "runs with 1, 3 or 8 connections in parallel, 6-25 messages each, back to back: (a) a bare server-kind channel receives single- and multi-chunk WriteRequests with ByteStrings up to 200 kB, long strings and string arrays from the reference client (a third of them split so that the final chunk is empty), (b) a bare client-kind channel receives such ReadResponses from the reference server, (c) a real client reads and writes large values on the real server; modes None, Sign, SignAndEncrypt; every delivered request, response and stored value is retained with the SHA-256 of its re-encoding at delivery, re-hashed whenever a connection finishes (while the others still receive) and at the end; oracle: hashes unchanged; evaluations = retained messages",
+				Rule:        "runs with 1, 3 or 8 connections in parallel, 6-25 messages each, back to back: (a) a bare server-kind channel receives single- and multi-chunk WriteRequests with ByteStrings up to 200 kB, long strings and string arrays from the reference client (a third of them split so that the final chunk is empty), (b) a bare client-kind channel receives such ReadResponses from the reference server, (c) a real client reads and writes large values on the real server and holds a subscription on them whose notifications are retained as taken from the channel; modes None, Sign, SignAndEncrypt; every delivered request, response and stored value is retained with the SHA-256 of its re-encoding at delivery, re-hashed whenever a connection finishes (while the others still receive) and at the end; oracle: hashes unchanged; evaluations = retained messages",
 				Assumptions: []string{"aliasing is observed through the public fields of the delivered objects (re-encoding)"}}
 			if tier == "thorough" {
 				p.Batches, p.TimeoutS, p.MinNontrivial = 16, 3000, 1000
